@@ -129,7 +129,15 @@ func c12Run(sc *C12Scenario, withUntrusted bool, flags map[string]bool) (out *c1
 			knownFirst := false
 			firstHeight := -1
 			if first != nil {
-				firstHeight, knownFirst = sn.node.blocks.Height(&first.Hash)
+				// on the node's chain = some height answers with this hash (not the node's own
+				// hash->height lookup, which is part of what is being judged); only heights near the
+				// tip can make a verification legitimate
+				for h := tipBefore; h >= 0 && h >= tipBefore-12; h-- {
+					if hh, err := sn.node.blocks.Hash(sn.ctx, h); err == nil && *hh == first.Hash {
+						firstHeight, knownFirst = h, true
+						break
+					}
+				}
 			}
 			u.deliver(sn, hm)
 			if !wasVerified && u.un.untrustedState.IsReady() {
